@@ -169,6 +169,15 @@ pub fn generate_c09(seed: u64) -> W4Scn {
         }
         cfg.n_steps = cfg.n_steps.min(3).max(2);
     }
+    // rarely: one noise / momentum population that accumulates thousands of live orders of its own and cancels them
+    // sparsely (every trader quotes every step, 1 .. 8 % of the live orders are cancelled per step)
+    if r.chance(0.004) {
+        let asset = r.usize(cfg.assets);
+        let n = r.range(450, 900) as u16;
+        let p_cancel = (r.range(1, 8) as f32) / 100.0;
+        agents.insert(0, AgentSpec::Noise { asset, id_start: 20_000, n, p_limit: 1.0, p_market: 0.0, p_cancel, trade_vol: r.range(1, 20) as u32, mu: 2.0, sigma: 1.0 });
+        cfg.n_steps = r.range(10, 16);
+    }
     let kind = *r.pick(&[0u64, 3, 3, 3, 1, 2]);
     let initial = gen_initial(&mut r, &cfg, kind);
     // a separate OS process for half of the runs, each with its own perturbation set
